@@ -6,6 +6,7 @@ VARIABLE h
 CONSTANT Depth
 MCDelims  == {<<65>>, <<65, 66>>, <<10>>}
 MCSizes   == {-1, 0, 1, 2}
+QSizes    == {-1, 1, 2}
 SimSizes  == {-1, 0, 1, 2, 3, 5}
 Log       == Len(h) < Depth /\ h' = Append(h, last')
 XInit     == Init /\ h = <<>>          \* exhaustive instance: the history stays empty, so it adds no states
